@@ -264,7 +264,26 @@ def rule_r1(ctx):
     ctx.require(n_flows >= 25, f"only {n_flows} original→clone flows recognised")
     # the attribute map of a clone node is a new container
     cn = ctx.repo.func(f"{CL}:Cloner.clone_node")
-    attrs_new = any(isinstance(n, ast.Assign) and norm(n.targets[0]) == "new_attributes" and isinstance(n.value, (ast.ListComp, ast.List)) for n in own_nodes(cn.node))
+    # what is handed to the Node constructor as `attributes` is a list built in this function
+    attrs_new = False
+    for c in calls_in(cn):
+        k = ty.ctor_class(cn, c)
+        if k is None or k.name != "Node":
+            continue
+        a = next((kw.value for kw in c.keywords if kw.arg == "attributes"), None)
+        if a is None:
+            init = ctx.repo.lookup(k, "__init__")
+            ps = init.params[1:] if isinstance(init, FuncInfo) else []
+            if "attributes" in ps and ps.index("attributes") < len(c.args):
+                a = c.args[ps.index("attributes")]
+        if a is None:
+            continue
+        defs = [a]
+        if isinstance(a, ast.Name):
+            defs = [n.value for n in own_nodes(cn.node) if isinstance(n, (ast.Assign, ast.AnnAssign)) and getattr(n, "value", None) is not None
+                    and any(isinstance(t, ast.Name) and t.id == a.id for t in (n.targets if isinstance(n, ast.Assign) else [n.target]))]
+        attrs_new = bool(defs) and all(isinstance(d, (ast.ListComp, ast.List, ast.Tuple, ast.GeneratorExp, ast.DictComp))
+                                       or (isinstance(d, ast.Call) and dotted_of(d.func) in ("list", "tuple", "dict")) for d in defs)
     ctx.check("R1", "clone_node builds a new attribute list", attrs_new, cn, cn.node, "the clone node reuses the original's attribute container",
               how="new_attributes is a comprehension", nontrivial=False)
 
@@ -435,7 +454,9 @@ def rule_r3_r4(ctx):
     loop = [n for n in own_nodes(cn.node) if isinstance(n, ast.For) and norm(n.iter) == "node.inputs"]
     ctx.require(len(loop) == 1, "clone_node: input loop not found")
     var = norm(loop[0].target)
-    apps = [c for c in ast.walk(loop[0]) if isinstance(c, ast.Call) and norm(c.func) == "new_inputs.append" and c.args and norm(c.args[0]) == var]
+    # appends of the loop variable itself (the original value, not its image in the value map) to a local list
+    apps = [c for c in ast.walk(loop[0]) if isinstance(c, ast.Call) and isinstance(c.func, ast.Attribute) and c.func.attr == "append"
+            and isinstance(c.func.value, ast.Name) and c.args and norm(c.args[0]) == var]
     ctx.require(len(apps) >= 2, "clone_node: pass-through appends not found")
     for c in apps:
         conds = []
